@@ -37,7 +37,7 @@ for d in glob.glob(os.path.join(here, "seeded", "*")):
     rnd = 17 if rnd == 18 else rnd
     t = per.setdefault(rnd, [0, 0])
     t[0] += 1
-    if m.get("strengthened"):
+    if m.get("strengthened") or not m.get("detected"):
         t[1] += 1
 rt = "| round | what the sub-agents were asked for | changes kept | of these missed by the check as it was (then strengthened) |\n|---|---|---|---|\n"
 for rnd in sorted(per):
